@@ -45,6 +45,7 @@ Definition add_base_impl (compat : bool) (rel base : uri) : N * uri :=
         let d := copy_authority d rel in
         let d := copy_path d rel in
         let d := remove_dot_segments_absolute d in
+        let d := fix_ambiguity d in
         set_query (query rel) d
       else
         let d :=
@@ -65,7 +66,8 @@ Definition add_base_impl (compat : bool) (rel base : uri) : N * uri :=
                   if absolutePath rel then
                     let d := copy_path d rel in
                     let d := resolve_abs_flag d in
-                    remove_dot_segments_absolute d
+                    let d := remove_dot_segments_absolute d in
+                    fix_ambiguity d
                   else
                     let d := copy_path d base in
                     let d := merge_path d rel in
